@@ -144,6 +144,22 @@ fn c08_call_long() {
     kani::cover!(true, "long call");
 }
 
+/// thorough tier: the 260-byte call from key position 0
+#[kani::proof]
+#[kani::unwind(262)]
+fn c08_call_long_p0() {
+    call_is_steps::<260>(0, 260, 2);
+    kani::cover!(true, "long call");
+}
+
+/// thorough tier: the 260-byte call from key position 11
+#[kani::proof]
+#[kani::unwind(262)]
+fn c08_call_long_p11() {
+    call_is_steps::<260>(11, 260, 2);
+    kani::cover!(true, "long call");
+}
+
 /// C08: splitting a call anywhere (including empty pieces) changes nothing; paired halves round-trip
 /// under different chunking on the two sides.
 const SPL: usize = 8;
